@@ -74,6 +74,7 @@ def run_tlc(scratch, name, module_text, cfg_text, specs, timeout_s, workers=16, 
     out_path = os.path.join(d, out_name or "tlc.out")
     cmd = ["tlc", "-workers", str(workers), "-metadir", os.path.join(d, "meta"), "-nowarning"] + list(extra_args) + ["MC.tla"]
     env = dict(os.environ)
+    env["JAVA_TOOL_OPTIONS"] = (env.get("JAVA_TOOL_OPTIONS", "") + " -Xss64m").strip()
     if heap:
         env["JAVA_TOOL_OPTIONS"] = (env.get("JAVA_TOOL_OPTIONS", "") + " -Xmx%s" % heap).strip()
     t0 = time.time()
